@@ -138,7 +138,41 @@ def co_params(body):
     return out
 
 
+_PARAM_POS = None
+
+
+def _param_positions():
+    global _PARAM_POS
+    if _PARAM_POS is None:
+        import json
+        import os
+
+        p = os.path.join(os.path.dirname(os.path.abspath(__file__)), "tables", "param_positions.json")
+        _PARAM_POS = json.load(open(p)) if os.path.exists(p) else {}
+    return _PARAM_POS
+
+
+def param_at(body, idx):
+    """Local of the idx-th parameter (0-based; for async bodies: the local loaded from upvar field idx)."""
+    if body.j.get("coroutine_kind"):
+        for bi, i, s in body.stmts():
+            if bi != 0 or s["k"] != "assign" or s["rv"]["k"] != "use":
+                continue
+            p = op_place(s["rv"]["op"])
+            if p is not None and p["local"] == 1 and len(p["proj"]) == 1 and isinstance(p["proj"][0], dict) and p["proj"][0].get("idx") == idx and not s["place"]["proj"]:
+                return s["place"]["local"]
+        return None
+    return idx + 1 if idx + 1 <= body.arg_count else None
+
+
 def param_by_name(body, name):
+    """Parameter local by the name it had on the reviewed tree; resolved POSITIONALLY (tables/param_positions.json) so that
+    renaming a parameter or local does not disturb the rules; falls back to debug names for unlisted functions."""
+    pos = _param_positions().get(body.path)
+    if pos and name in pos:
+        l = param_at(body, pos.index(name))
+        if l is not None:
+            return l
     if body.j.get("coroutine_kind"):
         cp = co_params(body)
         if name in cp:
